@@ -129,6 +129,7 @@ type cgen struct {
 	nlits  int
 	safe   bool // module-scope evaluator subset: small i32 scalars, no shifts/builtins/vectors (see safeExpr)
 	vecf2u bool // allow vector f32 -> u32 conversions of negative values (known finding)
+	aidx   bool // allow literal indices into constant arrays of vectors (known finding)
 }
 
 // safeExpr: the expression subset on which the module-scope constant evaluator of the pinned tree
@@ -276,6 +277,20 @@ func (g *cgen) expr(t *wty, depth int) *wexpr {
 			return call("fma", e, lo, hi)
 		}
 		return call("clamp", e, lo, hi)
+	}
+	// directed: a literal index into a constant array of vectors yields the whole element
+	if g.aidx && t.k == "vec" && depth > 0 && c.chance(0.3) {
+		n := 2 + c.rng.Intn(2)
+		args := make([]*wexpr, n)
+		for i := range args {
+			if c.chance(0.5) {
+				args[i] = g.leaf(t)
+			} else {
+				args[i] = g.expr(t, depth-1)
+			}
+		}
+		c.count("const-array-of-vectors-index")
+		return &wexpr{k: "aidx", ty: t, name: fmt.Sprint(c.rng.Intn(n)), args: args, konst: true}
 	}
 	r := c.rng.Intn(100)
 	switch sc.k {
@@ -569,6 +584,8 @@ func cmdC06(c *ctx) {
 		switch {
 		case i%5 == 4 && (i/5)%2 == 0:
 			knob = "modfull" // full grammar at module scope (known finding: module-scope evaluator)
+		case i%5 == 4 && (i/5)%4 == 1:
+			knob, g.aidx = "aidx", true
 		case i%5 == 4:
 			knob, g.vecf2u = "vecf2u", true
 		case i%5 == 3:
@@ -616,6 +633,9 @@ func cmdC06(c *ctx) {
 			if c.chance(0.5) {
 				e = &wexpr{k: "bin", ty: t, op: c.pick("+", "&", "|"), args: []*wexpr{e, g.expr(t, depth-1)}, konst: true}
 			}
+		case knob == "aidx":
+			t = tVec(2+c.rng.Intn(3), []*wty{tI32, tU32, tBool}[c.rng.Intn(3)])
+			e = g.expr(t, 1+c.rng.Intn(3))
 		case t.isScalar() && t.isInt() && c.chance(0.1):
 			e = g.conc(t)
 		default:
